@@ -152,3 +152,55 @@ Theorem C03_example_reachable : reachable ex_env "robustirc.net"%string ex_final
   reachable ex_env "robustirc.net"%string stale_final.
 Proof. exact (conj ex_reachable (conj link_reachable stale_reachable)). Qed.
 Print Assumptions C03_example_reachable.
+
+(* ---- Marshal is total on reachable states: the snapshot is a proto3 message and proto.Marshal refuses strings that
+   are not valid UTF-8.  [utf8 s] := to_valid_utf8 s = s, with Str.to_valid_utf8 the Gallina rendering of Go's
+   strings.ToValidUTF8(s, "").  Entries that come through the HTTP API carry valid UTF-8 only (encoding/json replaces
+   ill-formed sequences; the raft entry is itself a proto3 message): then every string, map key and repeated string that
+   IRCServer.Marshal serialises (marshal_strings) is valid in every reachable state, also after a reload.  The one place
+   that slices a stored string at a byte offset, the user-name limit, drops the character it cuts (C03_cap_user_valid). *)
+From RV Require Import IrcProofs.Utf8 IrcProofs.Utf8Handlers.
+
+Theorem C03_utf8_step : forall e sv en, Utf8State sv -> utf8_entry en -> utf8_outcome (apply_entry e sv en).
+Proof. exact utf8_step. Qed.
+Print Assumptions C03_utf8_step.
+
+Theorem C03_utf8_reachable : forall e net es sv,
+  Forall utf8_entry es -> run e (init_server net) es = Some sv -> Utf8State sv.
+Proof. exact utf8_run. Qed.
+Print Assumptions C03_utf8_reachable.
+
+Theorem C03_marshal_total : forall e net es sv,
+  Forall utf8_entry es -> run e (init_server net) es = Some sv -> Forall utf8 (marshal_strings sv).
+Proof. exact marshal_total. Qed.
+Print Assumptions C03_marshal_total.
+
+Theorem C03_marshal_total_after_reload : forall e net es sv,
+  Forall utf8_entry es -> run e (init_server net) es = Some sv -> Forall utf8 (marshal_strings (reload sv)).
+Proof. exact marshal_total_reload. Qed.
+Print Assumptions C03_marshal_total_after_reload.
+
+Theorem C03_utf8_reload : forall sv, Utf8State sv -> Utf8State (reload sv).
+Proof. exact utf8_reload. Qed.
+Print Assumptions C03_utf8_reload.
+
+Theorem C03_utf8_covers_marshal : forall sv, Utf8State sv -> Forall utf8 (marshal_strings sv).
+Proof. exact marshal_strings_utf8. Qed.
+Print Assumptions C03_utf8_covers_marshal.
+
+Theorem C03_to_valid_utf8_valid : forall s, utf8 (to_valid_utf8 s).
+Proof. exact utf8_to_valid_utf8. Qed.
+Print Assumptions C03_to_valid_utf8_valid.
+
+Theorem C03_cap_user_valid : forall u, utf8 u -> utf8 (cap_user u).
+Proof. exact utf8_cap_user. Qed.
+Print Assumptions C03_cap_user_valid.
+
+(* the hypothesis is needed: a raw ill-formed byte in an entry reaches the state and Marshal would refuse it *)
+Theorem C03_ill_formed_entry_breaks_marshal :
+  exists sv sv' out,
+    run Examples.ex_env (init_server "robustirc.net") (firstn 3 u8_history) = Some sv /\
+    (apply_entry Examples.ex_env sv (EMessage 4 4000 1 13 "" ill_line) = OOk sv' out) /\
+    ~ (Forall utf8 (marshal_strings sv')).
+Proof. exact ill_formed_entry_breaks_marshal. Qed.
+Print Assumptions C03_ill_formed_entry_breaks_marshal.
